@@ -112,7 +112,7 @@ def h_multiline(ordered: bool, a: int, b: int, c: int, three: bool, ti: int, cod
   pre: 0 <= a < 6 and 0 <= b < 6 and 0 <= c < 6 and 0 <= ti < 5 and 0 <= code < 24
   pre: three or c == 0
   pre: THOROUGH or (code < 6 and not three and a < 3 and b < 3)
-  pre: (a + b) % NPART == PART
+  pre: (a + b + code) % NPART == PART
   post: _ == True
   """
   vp.enter("ml")
